@@ -263,34 +263,39 @@ theorem pton6Go_ok (st st' : P6) (s : Bytes) (h : pton6Go st s = some st') (hok 
 
 theorem pton6_sound (s v : Bytes) (h : pton6 s = some v) : v.length = 16 := by
   unfold pton6 at h
-  simp only at h
-  split at h
-  · cases h
-  · next s0 hs0 =>
+  cases hs : p6start (cstr s) with
+  | none => simp only [hs] at h; cases h
+  | some s0 =>
+    simp only [hs] at h
     cases hg : pton6Go ⟨[], none, s0, false, 0, 0⟩ s0 with
     | none => simp only [hg] at h; cases h
     | some st =>
       simp only [hg] at h
       have hok : p6ok st := pton6Go_ok _ _ _ hg ⟨by simp, by simp, by simp⟩
       obtain ⟨h1, h2, h3⟩ := hok
-      split at h
-      · cases h
-      · next out hfin =>
+      cases hfin : p6fin st with
+      | none => simp only [hfin] at h; cases h
+      | some out =>
+        simp only [hfin] at h
         have hout : out.length ≤ 16 ∧ st.out.length ≤ out.length := by
+          unfold p6fin at hfin
           split at hfin
           · split at hfin
             · cases hfin
             · cases hfin; simp; omega
           · cases hfin; exact ⟨h1, Nat.le_refl _⟩
-        split at h
-        · next cp hcp =>
+        cases hcp : st.colonp with
+        | some cp =>
+          simp only [hcp] at h
           split at h
           · cases h
           · cases h
             have := h2 cp hcp
             simp only [List.length_append, List.length_take, List.length_replicate, List.length_drop]
             omega
-        · split at h
+        | none =>
+          simp only [hcp] at h
+          split at h
           · cases h
           · next hne => cases h; simpa using hne
 
